@@ -71,7 +71,7 @@ def attr_c19(ev, names):
 PROPS = {
     "C01": dict(
         mc=[("MC_BigNat", None), ("MC_Round", None), ("MC_AlgRound", None), ("MC_AlgRound", "MC_AlgRound_pinned", "expect-violation")],
-        drivers=["arithS", "arithL", "ctxparse", "vectors"],
+        drivers=["arithS", "arithL", "ctxparse", "vectors:add,sub,mul,quo,abs,neg,round"],
         attr=attr_c01,
         rule="every recorded Add/Sub/Mul/Quo/Abs/Neg/Round call (domain S from the spec, seeded domain L) is judged by "
              "Spec_<Op> = RoundOnce(exact result); an event is non-trivial when its result is finite or overflowed "
@@ -79,33 +79,33 @@ PROPS = {
     ),
     "C02": dict(
         mc=[("MC_Round", None), ("MC_AlgQuo", "MC_AlgQuo_nosticky", "expect-violation")],
-        drivers=["arithS", "arithL", "intS", "roots", "vectors"],
+        drivers=["arithS", "arithL", "intS", "roots", "vectors:add,sub,mul,quo,quoint,rem,round,quantize,tointx,reduce,sqrt,abs,neg"],
         attr=attr_c02,
         rule="flag conjuncts of every recorded arithmetic event: decided bits equal the spec's, Inexact=>Rounded, "
              "Overflow=>Inexact, Underflow=>Subnormal&Inexact, no bit outside the 12 conditions",
     ),
     "C07": dict(
         mc=[("MC_Round", None), ("MC_AlgQuo", None), ("MC_AlgQuo", "MC_AlgQuo_nocarry", "expect-violation")],
-        drivers=["arithS", "arithL", "intS", "intL", "vectors"],
+        drivers=["arithS", "arithL", "intS", "intL", "vectors:add,sub,mul,quo,quoint,rem,abs,neg,round,quantize,reduce,sqrt,cbrt"],
         attr=attr_c07,
         rule="Fits(ctx, result) on every finite result of a rounding operation",
     ),
     "C08": dict(
         mc=[("MC_Round", None)],
-        drivers=["specials", "vectors"],
+        drivers=["specials", "vectors:add,sub,mul,quo,quoint,rem,abs,neg,round,quantize,reduce,tointx,tointv,cmp,sqrt,cbrt"],
         attr=attr_c08,
         rule="every operation x every combination of {NaN, sNaN, +-Inf, +-0 with several exponents, finite} operands x "
              "contexts, exhaustively, judged by the special-value prologues of Arith/Roots/Transc",
     ),
     "C09": dict(
         mc=[("MC_Round", None)],
-        drivers=["intS", "intL", "vectors"],
+        drivers=["intS", "intL", "vectors:quantize,tointx,tointv"],
         attr=attr_c09,
         rule="Quantize / RoundToIntegral* / Ceil / Floor events judged by Spec_Quantize, Spec_ToInt, Spec_CeilFloor",
     ),
     "C10": dict(
         mc=[("MC_Round", None)],
-        drivers=["intS", "intL", "vectors"],
+        drivers=["intS", "intL", "vectors:quoint,rem"],
         attr=attr_c10,
         rule="QuoInteger / Rem events judged by Spec_QuoInt / Spec_Rem (division identity by construction)",
     ),
@@ -235,7 +235,7 @@ PROPS["C16"] = dict(
 
 PROPS["C11"] = dict(
     mc=[("MC_Roots", None)],
-    drivers=["roots", "vectors"],
+    drivers=["roots", "vectors:sqrt,cbrt"],
     attr=lambda ev, names: fam(ev, "a") and ev["op"] in ("sqrt", "cbrt") and any_in(names, {"root", "val", "panic", "sys", "wf"}),
     rule="Sqrt/Cbrt on operands aimed at rounding boundaries (r^2+-1, (r+1/2)^2+-eps, all-nines, perfect squares/cubes and "
          "neighbours, odd/even exponents, operands longer than the precision) and seeded operands, accepted by integer "
@@ -246,7 +246,7 @@ PROPS["C12"] = dict(
     mc=[("MC_Transc", None)],
     mc_workers=1,
     drivers=["transc"],
-    drivers_thorough=["vectors"],
+    drivers_thorough=["vectors:exp,ln,log10,pow"],
     attr=lambda ev, names: fam(ev, "a") and ev["op"] in ("exp", "ln", "log10", "pow") and any_in(names, {"transc", "val", "panic", "sys", "wf"}),
     rule="Exp/Ln/Log10/Pow on seeded operands (1..3p digits, arguments near 1, tiny and huge Exp arguments up to the true "
          "overflow threshold, integer and fractional Pow exponents, precision 1..34 weighted to <=16) accepted iff the result "
